@@ -186,6 +186,7 @@ type CtlConn struct {
 	closes   int32
 	reads    int32
 	client   net.Conn
+	dirty    bool // the client has sent the start of a frame that it never completes
 }
 
 func (c *CtlConn) Read(b []byte) (int, error) {
